@@ -19,10 +19,11 @@ N_KEYS = 12
 SPEND = ['spend_missing', 'spend_spent', 'spend_other_fork', 'spend_same_block', 'dup_ref_in_tx',
          'dup_ref_in_block', 'null_ref', 'sig_other_key', 'sig_other_message', 'outputs_changed',
          'input_added', 'input_removed', 'inputs_reordered', 'sigs_swapped', 'placeholder_sig',
-         'coinbasedata_sig', 'junk_sig', 'low_height_steal']
+         'coinbasedata_sig', 'junk_sig', 'low_height_steal', 'second_sig_junk', 'second_sig_copy', 'second_sig_other_key',
+         'replayed_sig_new_outputs']
 VALUE = ['reward_plus_one', 'reward_plus_other_fee', 'out_zero', 'out_max_plus_one', 'outs_sum_over_max',
          'outs_exceed_inputs', 'out_2_64_minus_1', 'two_rewards', 'reward_not_first', 'reward_two_inputs',
-         'reward_real_ref', 'low_height_mint']
+         'reward_real_ref', 'low_height_mint', 'outs_exceed_inputs_comp']
 HEADER = ['pow_not_below', 'target_plus_1', 'target_minus_1', 'target_initial', 'target_parent_at_boundary',
           'target_elapsed_off_by_one', 'target_float', 'height_plus_2', 'height_same', 'height_low',
           'height_low_pure', 'reward_height_differs', 'ts_equal_parent', 'ts_before_parent', 'ts_now_plus_31',
@@ -323,6 +324,55 @@ def f_junk_sig(sim, rb, op, d, a, b):
     _add_tx(d, make_tx([ref], [(v, key(b % N_KEYS))], [junk]), 0)
 
 
+def _second_input(sim, rb, op, d, a, b, how):
+    """First input spends the forger's own output with a good signature; the second takes someone else's."""
+    rr = _two_refs(sim, rb, d, a, distinct_owner=True)
+    if rr is None:
+        return False
+    r1, r2 = rr
+    k1, k2 = _owned(sim, rb, r1), _owned(sim, rb, r2)
+    v = rb.utxo[r1][0] + rb.utxo[r2][0]
+    good = make_tx([r1, r2], [(v, k1)], [k1, k2])
+    first = good.inputs[0]
+    if how == 'junk':
+        sig2 = SECP256k1Signature(bytes([(a * 3 + i) % 256 for i in range(64)]))
+    elif how == 'copy':
+        sig2 = first.signature          # a byte-identical copy of the first input's (valid) signature
+    else:
+        sig2 = make_tx([r1, r2], [(v, k1)], [k1, k1]).inputs[1].signature   # signed by the forger's key
+    _add_tx(d, Transaction([first, Input(good.inputs[1].output_reference, sig2)], list(good.outputs)), 0)
+
+
+def f_second_sig_junk(sim, rb, op, d, a, b):
+    return _second_input(sim, rb, op, d, a, b, 'junk')
+
+
+def f_second_sig_copy(sim, rb, op, d, a, b):
+    return _second_input(sim, rb, op, d, a, b, 'copy')
+
+
+def f_second_sig_other_key(sim, rb, op, d, a, b):
+    return _second_input(sim, rb, op, d, a, b, 'other')
+
+
+def f_replayed_sig_new_outputs(sim, rb, op, d, a, b):
+    """An honest spend that the node has ALREADY validated (in a stored sibling/ancestor block) is replayed with its
+    published signature bytes but other outputs, on a parent where the output is still unspent."""
+    for bid in reversed(sim.stored):
+        blk = sim.block_objs.get(bid)
+        if blk is None:
+            continue
+        for t in blk.transactions[1:]:
+            refs = [(i.output_reference.hash, i.output_reference.index) for i in t.inputs]
+            if all(r in rb.utxo for r in refs):
+                total = sum(rb.utxo[r][0] for r in refs)
+                thief = _other_key(_owned(sim, rb, refs[0]), b)
+                sim.res.bump('probe:validated_signature_replayed')
+                _add_tx(d, Transaction(list(t.inputs), [Output(total, thief.pk)]), 0)
+                return None
+    return False
+
+
 LOW_HEIGHTS = [7, 1, 499, 162_999, 100_001, 163_000 - 3]
 
 
@@ -376,6 +426,19 @@ def f_outs_sum_over_max(sim, rb, op, d, a, b):
 
 def f_outs_exceed_inputs(sim, rb, op, d, a, b):
     return _value_tx(sim, rb, d, a, lambda v, k: [(v // 2, key(b % N_KEYS)), (v - v // 2 + 1, k)])
+
+
+def f_outs_exceed_inputs_comp(sim, rb, op, d, a, b):
+    """Outputs exceed inputs by a little and the reward is lowered by the same amount: total supply is conserved,
+    the per-transaction rule is still broken."""
+    ref = _pick(sim, rb, a, d['used'])
+    if ref is None:
+        return False
+    k = _owned(sim, rb, ref)
+    v = rb.utxo[ref][0]
+    extra = 1 + b % 1000
+    d['others'].append(make_tx([ref], [(v + extra, key(b % N_KEYS))], [k]))
+    d['fees'] -= extra
 
 
 def f_out_2_64_minus_1(sim, rb, op, d, a, b):
